@@ -197,7 +197,11 @@ C13_OnlySilentPeer ==
   (fresh = "ConnState" /\ LastCb.cls = "pingtimeout") =>
     \E i \in DroppedPings : hist.writes[i].g = CbG
 
-Obs == [ C16_ActiveOnce |-> C16_ActiveOnce, C16_ActiveOnlyAfterAccept |-> C16_ActiveOnlyAfterAccept,
+\* C16, "Closed ... together with the non-nil error that ended it": a connection reported closed by a keep-alive time-out
+\* is one on which a ping really went unanswered -- not one whose PINGREQ could not be written, for instance (c16i)
+C16_ClosedCauseTruthful == C13_OnlySilentPeer
+
+Obs == [ C16_ClosedCauseTruthful |-> C16_ClosedCauseTruthful, C16_ActiveOnce |-> C16_ActiveOnce, C16_ActiveOnlyAfterAccept |-> C16_ActiveOnlyAfterAccept,
          C16_ClosedOnce |-> C16_ClosedOnce, C16_ClosedHasError |-> C16_ClosedHasError,
          C16_DisconnectedOnce |-> C16_DisconnectedOnce, C16_NoClosedAfterDisconnected |-> C16_NoClosedAfterDisconnected,
          C16_DisconnectedOnlyIfCalled |-> C16_DisconnectedOnlyIfCalled,
